@@ -1,13 +1,15 @@
 """C10 -- n-best results are the k best distinct derivations, best first"""
 import math
 
-from depsim import refparser, session
+from depsim import gen, refparser, session
 from depsim.props.base import ParserSessionProp, FAMILIES_UNIFORM
 from depsim.runner import Violation, add_set, bump, digest
 
 
 class C10(ParserSessionProp):
     id = 'C10'
+    scale_every = {'quick': 200, 'thorough': 100}
+    scale_kinds = ('wide',)          # tag inventories beyond 2^16 categories; the other scale runs are 1-best worlds
     families = FAMILIES_UNIFORM
     max_len = 5
     nbest_choices = (2, 2, 3, 4, 5, 8)
@@ -156,8 +158,8 @@ class C10(ParserSessionProp):
                 raise HarnessError(f'reference models disagree: viterbi {vb}, enumeration {ref_scores[:1]}')
             bump(stats, 'reference_models_cross_checked')
             if k >= 2 and len(derivs) >= 2:
-                add_set(stats, 'nontrivial', digest((spec['world']['sentences'][sid]['tag']['hex'],
-                                                     spec['world']['sentences'][sid]['dep']['hex'],
+                add_set(stats, 'nontrivial', digest((gen.arr_key(spec['world']['sentences'][sid]['tag']),
+                                                     gen.arr_key(spec['world']['sentences'][sid]['dep']),
                                                      k, session.cfg_key(cfg), rec.contexts[pos])))
             if refparser.is_placeholder(resp):
                 if not cut and derivs:
